@@ -30,6 +30,8 @@ CONSTANTS
   StartIdle = FALSE
   EveryExitStops = TRUE
   RxDropAtLoopEnd = TRUE
+  DequeueBatch = 0
+  QueueCap = 0
 SPECIFICATION Spec
 VIEW View
 SYMMETRY ThrSym
